@@ -383,7 +383,9 @@ def run(prog, chk):
     chk.rule("C16.d2", "VSA: unescapeString allocates str.length() bytes and writes at most one byte per consumed source byte outside numeric references (which consume >= 4 and produce <= 4)", floor=1)
     res = [n for n in un.nodes if n["k"] == "DeclStmt" and any(d["n"] == "result" for d in n["decls"])]
     wr = [s for s in q.stores(un) if re.match(r"^\*dest\+\+$", q.no_casts(un.r(s.lhs)))]
-    if res and "str.length()" in un.r(res[0]["i"]) and wr:
+    res_init = [d["init"] for n in res for d in n["decls"] if d["n"] == "result" and d.get("init") is not None]
+    sized = bool(res) and ("str.length()" in un.r(res[0]["i"]) or any("str.length()" in q.no_casts(q.xr(un, x)) for i_ in res_init for x in [i_] + list(un.desc(i_))))
+    if sized and wr:
         chk.ok("C16.d2", un, "result(str.length()); %d single-byte writes" % len(wr), "%s:%s" % (un.file, un.line), "allocation and store shapes", evals=len(wr))
     else:
         chk.bad("C16.d2", un, "unescape-buffer", "%s:%s" % (un.file, un.line), "unescapeString must size its buffer by the source length and write byte-wise")
@@ -662,7 +664,7 @@ def reference_terminator_window(prog, chk, rid):
                     a = q.call_args(f, ini["i"]) if ini["k"] == "CallExpr" and (ini.get("callee") or "").startswith("String::find") else []
                     if len(a) == 2 and fin.eval_expr(f, a[1], {}) == 59:
                         finds.append((n["i"], d))
-    ends = [d for n in f.nodes if n["k"] == "DeclStmt" for d in n["decls"] if d.get("init") is not None and re.search(r"\+ ?str\.length\(\)", q.no_casts(f.r(d["init"])))]
+    ends = [d for n in f.nodes if n["k"] == "DeclStmt" for d in n["decls"] if d.get("init") is not None and re.search(r"\+ ?str\.length\(\)", q.no_casts(q.xr(f, d["init"])))]      # the length may sit in a local
     if not finds or not ends:
         raise AnalysisBroken("unescapeString: the search for ';' or the end-of-value pointer was not found")
     dn, d = finds[0]
